@@ -25,7 +25,15 @@ for mp in sorted(glob.glob(os.path.join(HERE, 'seeded/*/meta.json'))):
     det = m.get('detection', {})
     fired = '; '.join('%s (%s)' % (p, ', '.join('`%s`' % x[:50] for x in v[:2])) for p, v in sorted(det.get('fired', {}).items())) or '**missed**'
     seed.append('| %s | %s | %s | %s | %s | %s |' % (m['id'], m['property'], m.get('change', ''), m.get('needs_to_manifest', ''), 'yes' if m.get('confirmation', {}).get('confirmed') else 'no', fired))
-block = '\n'.join(lines) + '\n\n' + '\n'.join(seed) + '\n'
+neu = []
+neu.append('| Behaviour-preserving refactoring (neutral_seeded/…) | Area given to the sub-agent | Alarms over all 19 checks (must be none) |')
+neu.append('|---|---|---|')
+for mp in sorted(glob.glob(os.path.join(HERE, 'neutral_seeded/*/meta.json'))):
+    m = json.load(open(mp))
+    ev = m.get('evaluation') or {}
+    al = '; '.join('%s (%s)' % (p, ', '.join('`%s`' % x[:50] for x in v[:2])) for p, v in sorted((ev.get('alarms') or {}).items()))
+    neu.append('| %s | %s | %s |' % (m['id'], m.get('area', '')[:200], ('**alarms**: ' + al) if al else ('silent' if ev else 'not evaluated')))
+block = '\n'.join(lines) + '\n\n' + '\n'.join(seed) + '\n\n' + '\n'.join(neu) + '\n'
 p = os.path.join(HERE, 'DESIGN.md')
 s = open(p).read()
 a, b = '<!-- GENERATED:catch-table -->', '<!-- /GENERATED:catch-table -->'
